@@ -277,6 +277,12 @@ def resample_melody_series(times, frequencies, voicing, times_new, kind="linear"
         for n, frequency in enumerate(frequencies[1:]):
             if frequency == 0:
                 frequencies_held[n + 1] = frequencies_held[n]
+        # Leading zeros have no previous frequency to hold: use the first
+        # reported one, so that a zero never acts as a data point of the
+        # interpolation (these samples are zeroed again below)
+        reported = np.flatnonzero(frequencies_held)
+        if len(reported) > 0:
+            frequencies_held[: reported[0]] = frequencies_held[reported[0]]
         # Linearly interpolate frequencies
         frequencies_resampled = scipy.interpolate.interp1d(
             times, frequencies_held, kind
